@@ -21,7 +21,7 @@ pub fn spec() -> CheckSpec {
     CheckSpec {
         id: "C03",
         level: "exploration",
-        rule: "proptest: a random valid history (reference model) drives a real node to a context past an epoch boundary and the proposal window; then a sequence of candidate blocks built on the tip (or on a side branch 1-3 blocks below it): boundary-valid candidates (timestamp = median+1 and = now+15000, extension of 32 and 96 bytes, maximum uncles, proposals at the limit, commits at exactly w_close and w_far; rival branches that overtake the chain and are overtaken again so that previously verified blocks are re-attached) that must be attached, and single-rule mutations (63 operators: header number/epoch/timestamp/parent, cellbase count/position/outputs/data/type/witness/since, roots and hashes, duplicates, limits, extension shape and chain root, uncle epoch/number/descent/duplicate/double inclusion/count/proposals, commit outside the window on both sides, unproposed commit, double spend, unknown input, reward +-1 / lock / premature output, each DAO component +-1, compact target) that must be refused through the miner's submit pipeline with tip, total difficulty and the full C02 column scan unchanged, the block remembered as invalid, and every descendant refused. Every operator keeps all other commitments consistent (the model recomputes DAO, reward, roots for the mutated body). Non-trivial = candidate evaluated in a context of height >= w_far+2 past >=1 epoch boundary; distinct by hash of (plan, operator sequence index).",
+        rule: "proptest: a random valid history (reference model) drives a real node to a context past an epoch boundary and the proposal window; then a sequence of candidate blocks built on the tip (or on a side branch 1-3 blocks below it): boundary-valid candidates (timestamp = median+1 and = now+15000, extension of 32 and 96 bytes, maximum uncles, proposals at the limit, commits at exactly w_close and w_far; rival branches that overtake the chain and are overtaken again so that previously verified blocks are re-attached) that must be attached, and single-rule mutations (63 operators: header number/epoch/timestamp/parent, cellbase count/position/outputs/data/type/witness/since, roots and hashes, duplicates, limits, extension shape and chain root, uncle epoch/number/descent/duplicate/double inclusion/count/proposals, commit outside the window on both sides, unproposed commit, double spend, unknown input, reward +-1 / lock / premature output / output although the finalised reward cannot create the cell, each DAO component +-1, compact target) that must be refused through the miner's submit pipeline with tip, total difficulty and the full C02 column scan unchanged, the block remembered as invalid, and every descendant refused. Every operator keeps all other commitments consistent (the model recomputes DAO, reward, roots for the mutated body). Non-trivial = candidate evaluated in a context of height >= w_far+2 past >=1 epoch boundary; distinct by hash of (plan, operator sequence index).",
         assumptions: &[
             "proof-of-work is the Dummy engine in these specs (every nonce valid); PoW acceptance is checked in C07",
             "block size / cycle limits at the exact boundary are not generated in this tier",
@@ -50,14 +50,23 @@ enum Class {
     Chain,
 }
 
-const N_OPS: u8 = 78;
+const N_OPS: u8 = 80;
 
 fn variant_cfg(variant: u8) -> SpecCfg {
     let mut c = SpecCfg {
         max_block_proposals_limit: Some(6),
         ..Default::default()
     };
-    match variant % 3 {
+    match variant % 4 {
+        3 => {
+            // small issuance: a miner lock of a few kilobytes makes a block's reward insufficient
+            // to create its cell (the finalising cellbase must then have no output)
+            c.permanent_difficulty = true;
+            c.epoch_duration_target = 48;
+            c.proposal_window = (2, 4);
+            c.initial_primary_epoch_reward = Some(6 * 1_200 * 100_000_000);
+            c.secondary_epoch_reward = Some(6 * 100 * 100_000_000);
+        }
         0 => {
             c.permanent_difficulty = true;
             c.epoch_duration_target = 48; // 6 blocks / epoch
@@ -88,7 +97,7 @@ fn case_strategy() -> impl Strategy<Value = Case> {
         dao_pct: 0,
     };
     (
-        0u8..3,
+        0u8..4,
         tree_plan_strategy(p),
         proptest::collection::vec((0u8..N_OPS, 0u8..8, any::<u16>()), 10..22),
     )
@@ -206,7 +215,13 @@ fn make(w: &mut World, op: u8, parent: &H, aux: u16) -> Option<Cand> {
     let mut o = w.opts();
     let p_number = w.tree.get(parent).number;
     let n = p_number + 1;
-    let has_reward = w.tree.reward_for_child_of(parent).is_some();
+    let has_target = w.tree.reward_for_child_of(parent).is_some();
+    // the cellbase carries an output only when the finalised reward can create the target's cell
+    let has_reward = w
+        .tree
+        .reward_for_child_of(parent)
+        .map(|r| occupied_shannons(&CellOutput::new_builder().lock(r.lock.clone()).build(), 0) <= r.total as u128)
+        .unwrap_or(false);
     let median = w.tree.median_time(parent);
     let limit = env.consensus.max_block_proposals_limit() as usize;
     let build = |w: &World, spec: &BlockSpec, o: &BuildOpts| w.tree.build(parent, spec, o).ok();
@@ -473,7 +488,7 @@ fn make(w: &mut World, op: u8, parent: &H, aux: u16) -> Option<Cand> {
             (build(w, &spec, &o), Class::Chain, "reward:wrong-lock")
         }
         48 => {
-            if has_reward {
+            if has_target {
                 return None;
             }
             o.cellbase_force_output = true;
@@ -801,6 +816,81 @@ fn commit_window_scenario(w: &mut World, dist_kind: u8, aux: u16, st: &mut Stats
     evaluate(w, c, &cur, true, st)
 }
 
+/// insufficient-reward scenario: a block is mined with a lock so large that its finalised reward
+/// cannot create the cell; the block that finalises it must then have a cellbase without outputs.
+/// Offered first: a cellbase that creates the under-capacity output anyway, or (`other_lock`) pays an
+/// arbitrary amount to another lock; both must be refused with the state unchanged.  Then the block
+/// with the empty cellbase must be attached.  Applicable where issuance is small (spec variant 3).
+fn insufficient_reward_scenario(w: &mut World, other_lock: bool, aux: u16, st: &mut Stats) -> Verdict {
+    let tip = w.tip();
+    let (_, far) = w.tree.window();
+    // size the lock from what the current finalisation pays
+    let Some(now) = w.tree.reward_for_child_of(&tip) else { return Ok(()) };
+    let need_bytes = (now.total as u128 * 3 / 100_000_000) as usize;
+    if need_bytes > 24_000 {
+        st.label("scenario:insufficient-reward:not-applicable(issuance-too-large)");
+        return Ok(());
+    }
+    let big_lock = w
+        .env
+        .always_success_lock
+        .clone()
+        .as_builder()
+        .args(Bytes::from(vec![(aux & 0xff) as u8; need_bytes + 64]).pack())
+        .build();
+    let mut spec = w.plain_spec(&tip);
+    spec.miner_lock = Some(big_lock.clone());
+    let t = w.tree.build(&tip, &spec, &w.opts()).map_err(|e| Violation::new("harness:build", e))?;
+    let target = t.hash.clone();
+    if w.node.submit(&t.block) != Ok(true) {
+        vfail!("valid-refused:block-with-large-miner-lock", "plain block #{} whose cellbase witness names a {}-byte lock refused", t.number, need_bytes + 64);
+    }
+    let mut cur = w.tree.insert(t);
+    for _ in 0..far {
+        let spec = w.plain_spec(&cur);
+        let f = w.tree.build(&cur, &spec, &w.opts()).map_err(|e| Violation::new("harness:build", e))?;
+        if w.node.submit(&f.block) != Ok(true) {
+            vfail!("valid-refused:filler-block", "plain filler block refused");
+        }
+        cur = w.tree.insert(f);
+    }
+    let Some(r) = w.tree.reward_for_child_of(&cur) else { return Ok(()) };
+    let lack = occupied_shannons(&CellOutput::new_builder().lock(r.lock.clone()).build(), 0) > r.total as u128;
+    if r.target != target || !lack {
+        st.label("scenario:insufficient-reward:not-reached");
+        return Ok(());
+    }
+    // (a) the forbidden cellbase
+    let mut opts = w.opts();
+    opts.cellbase_force_output = true;
+    let name = if other_lock {
+        opts.cellbase_lock_override = Some(w.env.always_success_lock.clone());
+        opts.reward_delta = 1_000_000_000_000 + aux as i64;
+        "reward:insufficient-reward-paid-to-another-lock"
+    } else {
+        "reward:output-created-although-reward-insufficient"
+    };
+    let spec = w.plain_spec(&cur);
+    match w.tree.build(&cur, &spec, &opts) {
+        Ok(mb) => {
+            if mb.block.transactions()[0].outputs().is_empty() {
+                return Err(Violation::new("harness:build", "forced cellbase output missing"));
+            }
+            evaluate(w, Cand { mb, class: Class::Chain, name }, &cur, true, st)?;
+        }
+        Err(e) => return Err(Violation::new("harness:build", e)),
+    }
+    // (b) the required one
+    let spec = w.plain_spec(&cur);
+    let mb = w.tree.build(&cur, &spec, &w.opts()).map_err(|e| Violation::new("harness:build", e))?;
+    if !mb.block.transactions()[0].outputs().is_empty() {
+        return Err(Violation::new("harness:build", "model paid an insufficient reward"));
+    }
+    evaluate(w, Cand { mb, class: Class::Valid, name: "valid:empty-cellbase-when-reward-insufficient" }, &cur, true, st)?;
+    st.label("scenario:insufficient-reward");
+    Ok(())
+}
+
 /// switch-back scenario: a rival branch from 1-3 blocks below the tip overtakes the current chain
 /// A (A's top blocks are detached but stay verified), then A is extended until it is the heaviest
 /// again, so that the reorganisation re-attaches previously verified blocks plus new ones.  Every
@@ -924,6 +1014,16 @@ fn prop(case: &Case, st: &mut Stats) -> Verdict {
         // (timestamps may legally decrease along a chain down to median+1, so take the maximum)
         let now = w.tree.order.iter().map(|h| w.tree.get(h).block.timestamp()).max().unwrap_or(0) + 100_000;
         w.set_now(now);
+        if *op >= 78 {
+            insufficient_reward_scenario(&mut w, *op == 79, *aux, st).map_err(|mut v| {
+                v.detail = format!("[op {i}] {}", v.detail);
+                v
+            })?;
+            if tipn >= far + 2 && past_boundary {
+                st.nontrivial(&(serde_json::to_string(&case.plan).unwrap(), i, *op));
+            }
+            continue;
+        }
         if *op >= 76 {
             switch_back_scenario(&mut w, *op == 77, *aux, st).map_err(|mut v| {
                 v.detail = format!("[op {i}] {}", v.detail);
